@@ -161,6 +161,7 @@ DiagToPersist ==
 DiagAtt ==
     LET c == Ev.c IN
     IF s.pc # "run" \/ c \notin Comp THEN "Phases:order"
+    ELSE IF "signal" \in Rng(Ev.errs) THEN "ParallelEqualsSerial:datasource-fails-outside-the-main-thread:signal.signal"
     ELSE IF c \in s.att THEN "RunOnce:attempted-twice" \o Strat
     ELSE IF ~(Deps(c) \subseteq s.obs) THEN "RunOrder:dependency-not-attempted-first" \o Strat
     ELSE IF ~CanAttemptAny(s, c) THEN "RunOrder:sub-graphs-not-one-at-a-time" \o Strat
@@ -170,8 +171,7 @@ DiagAtt ==
               ELSE IF c \in Impls /\ \E i \in Rng(ItemsOfImpl(c)) : ~UserAllows(i) THEN "DeniedNeverCollected:value:" \o Kind(c) \o Strat
               ELSE "RunExact:unexpected-value:" \o Kind(c) \o Strat)
          ELSE IF ~Ev.has /\ HasV(n, c) THEN
-             (IF "signal" \in Rng(Ev.errs) THEN "ParallelEqualsSerial:datasource-fails-outside-the-main-thread:signal.signal"
-              ELSE "RunExact:no-value:" \o Kind(c) \o Strat)
+             "RunExact:no-value:" \o Kind(c) \o Strat
          ELSE IF Rng(Ev.errs) # ErrKinds(n, c) THEN
              (IF Rng(Ev.errs) \ ErrKinds(n, c) # {}
                 THEN "ErrorsRecorded:unexpected:" \o Kind(c) \o ":" \o (CHOOSE k \in Rng(Ev.errs) \ ErrKinds(n, c) : TRUE) \o Strat
